@@ -598,6 +598,51 @@ pub fn mutate(kind: &str, decoder: &str, seed: &[u8], other: &[u8], rng: &mut Rn
 
 /// Shapes a mutation would only hit by luck: statement containers with every combination of
 /// element counts and boundary values, and label strings around the special `#` prefixes.
+/// String fields at their length limits: for every limit L used by the name / path validators
+/// (label 100 and 255, path 1023, plus the width of the length prefixes) a sweep over total byte
+/// lengths L-3..=L+3, over where a multi-byte UTF-8 character (2, 3 or 4 bytes) sits relative to L,
+/// and over the position of the long component in the path. All strings are valid UTF-8.
+pub fn boundary_labels() -> Vec<String> {
+    let mut out = vec![];
+    let limits = [100usize, 255, 1023, 65535];
+    let chars = ["", "\u{e9}", "\u{20ac}", "\u{1f600}"];
+    for lim in limits {
+        for total in lim.saturating_sub(3)..=lim + 3 {
+            for ch in chars {
+                // byte offset at which the multi-byte character starts, around the limit
+                let starts: Vec<usize> = if ch.is_empty() { vec![0] } else { (lim.saturating_sub(4)..=lim).collect() };
+                for st in starts {
+                    if st + ch.len() > total {
+                        continue;
+                    }
+                    for shape in 0..3 {
+                        // shape 0: one component; 1: "std::" prefix; 2: "::a" suffix
+                        let prefix = if shape == 1 { "std::" } else { "" };
+                        let suffix = if shape == 2 { "::a" } else { "" };
+                        if st < prefix.len() || total < prefix.len() + suffix.len() + ch.len() + (st - prefix.len()) {
+                            continue;
+                        }
+                        let mut s = String::with_capacity(total);
+                        s.push_str(prefix);
+                        while s.len() < st {
+                            s.push('a');
+                        }
+                        s.push_str(ch);
+                        while s.len() + suffix.len() < total {
+                            s.push('a');
+                        }
+                        s.push_str(suffix);
+                        if s.len() == total {
+                            out.push(s);
+                        }
+                    }
+                }
+            }
+        }
+    }
+    out
+}
+
 pub fn crafted_inputs() -> Vec<(&'static str, Vec<u8>)> {
     let mut out: Vec<(&'static str, Vec<u8>)> = vec![];
     let vals = [0u64, 7, P - 1, P, u64::MAX];
@@ -646,14 +691,21 @@ pub fn crafted_inputs() -> Vec<(&'static str, Vec<u8>)> {
         "", "a", "a::b", "#sys", "#exec", "#anon", "#sy", "#sysx", "#execx", "#sys:", "#sys::", "#sys::a", "#exec::", "#exec::a::b", "#sys\u{e9}", "#exec\u{e9}\u{e9}", "::", "a::", "::a", "a:::b", "1a", "a-b", "\u{e9}", "a::\u{e9}",
         "#main", "#", "##", "A", "_a", "a b",
     ];
-    for l in labels {
+    let mut labels: Vec<String> = labels.iter().map(|s| s.to_string()).collect();
+    labels.extend(boundary_labels());
+    for l in labels.iter().map(|s| s.as_str()) {
+        if l.len() > u16::MAX as usize {
+            continue;
+        }
         let mut p = (l.len() as u16).to_le_bytes().to_vec();
         p.extend_from_slice(l.as_bytes());
         out.push(("LibraryPath", p.clone()));
         let mut n = vec![l.len() as u8];
         n.extend_from_slice(l.as_bytes());
-        out.push(("ProcedureName", n.clone()));
-        out.push(("LibraryNamespace", n.clone()));
+        if l.len() <= 255 {
+            out.push(("ProcedureName", n.clone()));
+            out.push(("LibraryNamespace", n.clone()));
+        }
         // a module-imports table with this single path, used / unused
         let mut mi = vec![1u8, 0];
         mi.extend_from_slice(&p);
